@@ -227,6 +227,40 @@ def r23_4(ctx, rep):
         raise MechanismMissing(R, "the whole-dimension slice is not reachable from the per-dimension loop")
 
 
+def _reinterpreting_ops(fn):
+    """operations that silently map an out-of-range subscript onto an in-range one: slice.indices(n) (clamps), min/max/clip
+    against a bound, modulo"""
+    out = []
+    for n in ast.walk(fn):
+        if isinstance(n, ast.Call) and isinstance(n.func, ast.Attribute) and n.func.attr == "indices" and n.args:
+            out.append((n, "slice.indices() clamps both bounds to the dimension"))
+        elif isinstance(n, ast.Call) and (call_name(n) or "").split(".")[-1] in ("min", "max", "clip", "minimum", "maximum") and len(n.args) >= 2:
+            out.append((n, "min/max/clip bounds the value instead of rejecting it"))
+        elif isinstance(n, ast.BinOp) and isinstance(n.op, ast.Mod) and not (isinstance(n.left, ast.Constant) and isinstance(n.left.value, str)):
+            out.append((n, "modulo wraps the value around"))
+    return out
+
+
+@SPEC.rule(
+    "R23.5",
+    "nothing bends a subscript into range: Generator.get_indexed_symbol and ForLoop.register_indexed_symbol apply no clamping or "
+    "wrapping operation (slice.indices(n), min/max/clip against a bound, modulo) to subscript values — an out-of-range subscript "
+    "must reach the range check (or the backend's own bound check) as written",
+)
+def r23_5(ctx, rep):
+    R = "R23.5"
+    # the detector must recognise the constructs it forbids (the expected count on a correct tree is zero)
+    probe = ast.parse("def f(sl, dim, i):\n    sl = slice(*sl.indices(dim))\n    i = min(i, dim)\n    j = i % dim\n    return 'a %s' % i")
+    if len(_reinterpreting_ops(probe.body[0])) != 3:
+        raise AnalysisError(R, "self-test of the clamping detector failed")
+    for q in FUNCS:
+        fn = ctx.func(GEN, q, R)
+        bad = _reinterpreting_ops(fn)
+        rep.ob(R, GEN + ":" + q, "no clamping or wrapping of subscript values", not bad,
+               "; ".join("`%s`: %s" % (norm(n)[:50], why) for n, why in bad[:3]) +
+               " — an out-of-range slice such as x[2:4] on Real x[3] is then silently mapped to x[2:3] instead of being rejected")
+
+
 # -- seeded variants ---------------------------------------------------------
 from ._mut import replace_in_func  # noqa: E402
 
@@ -292,6 +326,23 @@ def _m_unknown(mod):
             if isinstance(n, ast.If) and norm(n.test).endswith(" is None") and n.body and isinstance(n.body[0], ast.Raise) and "no known value" in norm(n.body[0]):
                 n.body = [ast.Pass()]
                 return True
+        return False
+
+    return mod if replace_in_func(mod, "Generator.get_indexed_symbol", edit) else None
+
+
+@SPEC.mutant("slice resolved with slice.indices(dim)", GEN, "R23.5", "clamping")
+def _m_clamp(mod):
+    def edit(fn):
+        for node in ast.walk(fn):
+            for fld in ("body", "orelse"):
+                b = getattr(node, fld, None)
+                if isinstance(b, list):
+                    for i, st in enumerate(b):
+                        if isinstance(st, ast.Assign) and is_name(st.targets[0], "sl") and isinstance(st.value, ast.Call) and is_name(st.value.func, "slice") \
+                                and len(st.value.args) == 3 and not all(isinstance(a, ast.Constant) for a in st.value.args):
+                            b.insert(i + 1, ast.parse("sl = slice(*sl.indices(dim))").body[0])
+                            return True
         return False
 
     return mod if replace_in_func(mod, "Generator.get_indexed_symbol", edit) else None
